@@ -210,6 +210,37 @@ func (g *zzC08Gen) program(shape int) (defs []slip.Object, rest []slip.Object) {
 			leafC,
 		}
 		rest = []slip.Object{g.tr(zzL(S("zza"), g.m())), g.tr(zzL(S("zza"), g.m())), g.tr(zzL(S("zzb"), g.m()))}
+	case 13:
+		// multiple values in argument positions: only the primary value reaches the function, at the
+		// first evaluation of the list form and at every later evaluation of the converted form
+		mv := zzL(S("values"), zzL(S("+"), S("p"), g.lit()), g.m())
+		defs = []slip.Object{
+			zzDefun("zza", P, g.m(), zzL(S("+"), g.m(), mv)),
+			zzDefun("zzb", P, zzL(S("list"), g.call("zza", g.tr(S("p"))), zzL(S("values"), S("p"), g.m()), g.m())),
+			leafC,
+		}
+		rest = []slip.Object{
+			g.tr(zzL(S("+"), zzL(S("values"), g.m(), g.m()), zzL(S("zza"), g.m()))),
+			g.tr(zzL(S("zzb"), g.m())),
+			g.tr(zzL(S("list"), zzL(S("values"), g.m(), g.m()), zzL(S("zzc"), zzL(S("values"), g.m(), g.m())))),
+		}
+	case 14:
+		// redefinition with another number of required parameters after the first definition was
+		// called: the later calls are checked against the NEW lambda list
+		P2 := zzL(S("p"), S("q"))
+		defs = []slip.Object{
+			zzDefun("zzb", P2, g.m(), zzL(S("+"), S("p"), S("q"))),
+			zzDefun("zza", P, g.m(), zzL(S("zzb"), g.tr(S("p")), g.m())),
+		}
+		rest = []slip.Object{
+			g.tr(zzL(S("zza"), g.m())),
+			zzDefun("zzb", P, g.m(), zzL(S("list"), S("p"), g.m())),
+			g.tr(zzL(S("zzb"), g.m())),
+			zzDefun("zza", P, g.m(), g.call("zzb", g.tr(S("p")))),
+			g.tr(zzL(S("zza"), g.m())),
+			zzDefun("zzb", zzL(S("p"), S("q"), S("r")), g.m(), zzL(S("list"), S("p"), S("q"), S("r"))),
+			g.tr(zzL(S("zzb"), g.m(), g.m(), g.m())),
+		}
 	default:
 		g.invalid = true
 	}
